@@ -261,6 +261,11 @@ func (e *Engine) Request(r *rng.R, last string) string {
 		ua = "b"
 	}
 	var line string
+	if e.lastPop != "" && r.Chance(1, 8) {
+		// the last successful populate again, verbatim, possibly after toxics were added to its
+		// proxies: nothing may change (a replaced proxy would lose them)
+		return fmt.Sprintf("POST /populate %s %s", ua, e.lastPop)
+	}
 	switch x := r.Intn(40); {
 	case x < 6:
 		body := proxyBody(e, r)
@@ -387,7 +392,7 @@ func (e *Engine) Sweep(tier string, seed uint64, res *report.Result) {
 	if !e.EnvOK {
 		res.Failures = append(res.Failures, report.Failure{Kind: "disagreement", Ops: []string{"(address table)"},
 			What: "the relation measured on Proxy.Differs does not recognise a proxy's bound/configured address as the spelling it came from: hypothesis spellingOK of theorem C17_spelling fails",
-			Sig: "e4:spellingOK"})
+			Sig:  "e4:spellingOK"})
 	}
 	for _, c := range Corpus {
 		var ops []string
